@@ -128,6 +128,15 @@ def run(eng, ctx):
         kw = dict(e.term[4])
         v = kw.get("labelmsm", e.term[3][1] if len(e.term[3]) > 1 else None)
         ctx.check(v == ("param", "labelmsm"), "C16.D3", parse.qualname, "hop 3: option passed to the message constructor", expected="labelmsm=labelmsm", found=show(v)[:40] if v else "default (option dropped)", **eng.loc(parse, e.node))
+    rmod, rcls = eng.reader_cls.split(".")
+    for rfun in eng.repo.methods(rmod, rcls):
+        if rfun.qualname == parse.qualname:
+            continue
+        for e in eng.symeval(rfun.qualname).effects:
+            if e.kind == "call" and e.term[2] == ("class", eng.message_cls):
+                kw = dict(e.term[4])
+                v = kw.get("labelmsm", e.term[3][1] if len(e.term[3]) > 1 else None)
+                ctx.check(v == ("field", rf), "C16.D3", rfun.qualname, "message constructed outside the static parser", expected=f"labelmsm=self.{rf}", found=show(v)[:40] if v else "default (option dropped)", **eng.loc(rfun, e.node))
     ctx.instance("forwarding hops", 1 + len(pcs) + len(ctors) + len(lab), 4)
     # defaults agree (reader, parse, message): an omitted option means the same label kind everywhere
     defaults = {}
